@@ -1,0 +1,8 @@
+//go:build !verif
+
+// Package verifhook provides instrumentation points for the verification
+// machinery. Without the "verif" build tag they do nothing.
+package verifhook
+
+// At is a no-op unless built with the "verif" tag.
+func At(string, ...any) {}
